@@ -1310,11 +1310,15 @@ def flw9(ctx):
             if blk is None:
                 continue
             edited = None
+            in_loop = False
             for st in hirq.stmts_after(blk, node):
                 for m in hirq.walk(st):
                     if m["e"] == "mcall" and m["name"] in ("remove", "remove_syll", "pop_back", "pop_front", "drain", "truncate", "clear", "swap_remove"):
                         edited = _root_name(m["recv"], "asca::word::Word")
                         if edited:
+                            # the removal sits in a loop that does not re-evaluate the guard: one test, several removals
+                            in_loop = any(lp["e"] in ("loop",) or (lp["e"] == "match" and lp.get("src") == "ForLoopDesugar") for lp in hirq.walk(st)
+                                          if any(y is m for y in hirq.walk(lp)) and lp is not m)
                             break
                 if edited:
                     break
@@ -1333,7 +1337,11 @@ def flw9(ctx):
                 e_ = {"site": "%s|%s|#%d" % (fpath, which, k), "reason": exc}
                 if e_ not in r.exceptions:
                     r.exceptions.append(e_)
-            elif stale:
+            if in_loop and which == "DeletionOnlySeg":
+                r.inst("%s: %s #%d guards a removal that is repeated in a loop" % (fpath.rsplit("::", 1)[-1], which, k), fn_loc(b, node["ln"]), "report")
+                r.report("FLW-9|%s|%s|#%d|loop" % (fpath, which, k), fn_loc(b, node["ln"]), fpath,
+                         "the only-segment refusal is tested once, but the removal it guards is repeated in a loop: a long segment that is the whole word passes the test (two slots) and is then removed completely, leaving a word without syllables")
+            elif stale and not exc:
                 r.report("FLW-9|%s|%s|#%d" % (fpath, which, k), fn_loc(b, node["ln"]), fpath,
                          "the refusal counts segments/syllables of `%s` but the removal that follows edits `%s`: after an earlier removal in the same match the counts differ and the last segment (syllable) of the word is deleted"
                          % ("`, `".join(stale), edited))
@@ -1430,4 +1438,61 @@ def var1(ctx):
         r.inst("%s: with modifiers compares %s of the captured syllable" % (short, sorted(withm)), fn_loc(b, split["ln"]), "ok" if ok2 else "report")
         if not ok2:
             r.report("VAR-1|%s|with-mods" % fpath, fn_loc(b, split["ln"]), fpath, "a syllable variable with modifiers is accepted without comparing the segments with the captured syllable")
+    return r
+
+
+# ---------------------------------------------------------------- VAR-2 syllables captured while matching backwards are stored in reading order
+
+
+def var2(ctx):
+    r = RuleResult("VAR-2", "a syllable variable captured by a direction-aware context matcher is stored in reading order (the backwards branch reverses the copy)", floor=4)
+    lib = ctx.lib
+    n = 0
+    for b in lib.bodies:
+        if b.in_test_mod() or not b.hir or not b.path.startswith("asca::subrule::SubRule::") or "forwards" not in b.param_names:
+            continue
+        root = b.hir["body"]
+        par = hirq.parent_map(root)
+        k = 0
+        for node in hirq.walk(root):
+            if not (node["e"] == "mcall" and node["name"] == "insert" and any(
+                    m["e"] == "call" and (hirq.strip(m["f"]).get("path") or "") == "asca::subrule::VarKind::Syllable" for a in node["args"] for m in hirq.walk(a))):
+                continue
+            if not any(m["e"] == "field" and m.get("name") == "variables" for m in hirq.walk(node["recv"])):
+                continue
+            # enclosing `if forwards` / `if !forwards`
+            x, child = par.get(id(node)), node
+            branch = None
+            while x is not None:
+                if x.get("e") == "if":
+                    c = hirq.strip(x["cond"])
+                    neg = False
+                    if c.get("e") == "unary" and c.get("op") == "Not":
+                        neg = True
+                        c = hirq.strip(c["a"])
+                    if c.get("e") == "path" and c.get("local") == "forwards":
+                        in_then = any(y is child for y in hirq.walk(x["then"]))
+                        branch = ("forwards" if in_then != neg else "backwards", x, in_then)
+                        break
+                child = x
+                x = par.get(id(x))
+            n += 1
+            if branch is None:
+                r.inst("%s: capture #%d does not depend on the direction" % (b.path.rsplit("::", 1)[-1], k), fn_loc(b, node["ln"]), "report")
+                r.report("VAR-2|%s|#%d|no-split" % (b.path, k), fn_loc(b, node["ln"]), b.path,
+                         "a syllable is captured into a variable without regard to `forwards`: a before-context is matched on the reversed word, so the stored syllable is back to front and a later use of the variable matches / writes its mirror image")
+                k += 1
+                continue
+            which, iff, in_then = branch
+            ok = True
+            if which == "backwards":
+                arm = iff["then"] if in_then else iff["else"]
+                ok = any(m["e"] == "mcall" and m["name"] == "reverse" for m in hirq.walk(arm))
+            r.inst("%s: capture #%d on the %s branch%s" % (b.path.rsplit("::", 1)[-1], k, which, "" if which == "forwards" else (" reverses the copy" if ok else " does NOT reverse the copy")),
+                   fn_loc(b, node["ln"]), "ok" if ok else "report")
+            if not ok:
+                r.report("VAR-2|%s|#%d|not-reversed" % (b.path, k), fn_loc(b, node["ln"]), b.path, "the syllable captured while matching backwards is stored without being reversed")
+            k += 1
+    if n < 4 and not r.reports:
+        raise AnchorMissing("only %d direction-aware syllable captures found" % n)
     return r
